@@ -1,5 +1,8 @@
 import CkbVerif.Lemmas.Window
 import CkbVerif.Lemmas.WindowConsumers
+import CkbVerif.Lemmas.WindowPool
+import CkbVerif.Lemmas.WindowBlocks
+import CkbVerif.Lemmas.WindowTable
 
 /-!
 # C20 — the node's proposal view equals the on-chain proposal window, also after restart
@@ -17,6 +20,12 @@ The consumers of the view are in `CkbVerif/Model/WindowConsumers.lean`: `txStatu
 of the tx-pool: `set` first, then `gap`, else fresh), `stageAfter` (the per-entry stage move of
 `_update_tx_pool_for_reorg`), and three variants used only as decided witnesses (`txStatusGapFirst`,
 `switchSkip`, `verifierIdsFromParent`).
+
+`CkbVerif/Model/WindowPool.lean` has the whole-pool transition (`poolSubmit` = `_submit_entry`,
+`poolReorg` = `update_tx_pool_for_reorg`, `pswitch` = a main-chain change with the pool notified) and
+`CkbVerif/Model/WindowBlocks.lean` blocks with embedded uncles (`Blk.unionIds` =
+`BlockView::union_proposal_ids`, `Blk.gatherIds` = the two-store-column loops of `init_proposal_table`
+and of the commit verifier).
 
 Everything is parametric in the window, under `WinOk w : 1 ≤ w.close ≤ w.far`; the generated
 consensus default satisfies it (`default_window_ok`). `ChainOk` = the chain is non-empty and the
@@ -250,6 +259,29 @@ theorem switch_back_eq_never_left {w : Win} (hw : WinOk w) {s : Node} (h : Reach
   rw [hce] at hi
   exact ⟨by rw [hback.1 x, hdv.1 x], by rw [hback.2 x, hdv.2 x], (hi.1 x).symm, (hi.2 x).symm⟩
 
+/-- Heavier-but-shorter branches: `Reach.switch` takes a branch of ANY length, so a reorganisation
+that moves the tip to a LOWER block number (fewer attached than detached blocks;
+`reload_proposal_table` with `new_tip < old tip`, `finalize` at a lower number) is covered by all the
+statements about `Reach`. Explicitly: the chain gets shorter and the view is exactly the window of the shorter
+chain. -/
+theorem switch_to_shorter_view {w : Win} (hw : WinOk w) {s : Node} (h : Reach w s) {common : Nat}
+    (hcommon : common < s.chain.length) (branch : List Ids)
+    (hshorter : common + 1 + branch.length < s.chain.length) :
+    let s' := (switch w s common branch).1
+    s'.chain.length < s.chain.length ∧
+    (∀ x, x ∈ s'.view.set ↔ InSet w (s.chain.take (common + 1) ++ branch) x) ∧
+    (∀ x, x ∈ s'.view.gap ↔ InGap w (s.chain.take (common + 1) ++ branch) x) := by
+  intro s'
+  have hv := view_eq_window_reach hw (Reach.switch common branch h hcommon)
+  refine ⟨?_, hv.1, hv.2⟩
+  show (s.chain.take (common + 1) ++ branch).length < s.chain.length
+  rw [newChain_length hcommon]; exact hshorter
+
+/-- window (1,2), chain g,[1],[2,3],[4] (tip 3): a one-block branch from block 1 (tip 2) takes over -/
+example : (switch ⟨1, 2⟩ exNode 1 [[5]]).1.chain.length = 3 ∧
+    (switch ⟨1, 2⟩ exNode 1 [[5]]).1.view.set = [1, 5] ∧ (switch ⟨1, 2⟩ exNode 1 [[5]]).2 = [4, 2, 3] := by
+  decide
+
 /-- A variant of `update_proposal_table` that skips the first `fork.verified_len()` attached blocks
 loses their rows: window (1,5), main chain g,[9],[1],[2]; branch [3],[4],[5] from block 1 takes over;
 the switch-back re-attaches [1],[2] (verified before) and attaches [6],[7]. The code as written has
@@ -288,6 +320,355 @@ example : (switch ⟨1, 2⟩ (switch ⟨1, 2⟩ exNode 1 [[5], [6], [7]]).1 1
     (exNode.chain.drop 2 ++ [[8]])).1.chain = [[], [1], [2, 3], [4], [8]] := by decide
 example : (switch ⟨1, 2⟩ (switch ⟨1, 2⟩ exNode 1 [[5], [6], [7]]).1 1
     (exNode.chain.drop 2 ++ [[8]])).1.view.set = [8, 4] := by decide
+
+/-! ## every window size: the saturating region near genesis and windows that reach past genesis
+
+`finalize` computes `candidate − w_far` and `candidate − w_close` with `saturating_sub`, takes the
+`candidate ≤ w_close` branch on short chains, and `init_proposal_table` starts at
+`tip.saturating_sub(w_far)`. The headline theorems hold for every `1 ≤ w_close ≤ w_far` and every
+chain length; the statements below spell out what they mean where the arithmetic saturates. -/
+
+/-- While the next block's number is at most `w_close` (the `candidate_number <= closest` branch of
+`finalize`) nothing is committable and EVERY proposal id of the non-genesis main chain is in the gap,
+in every reachable state — also after a truncation down into this region and after a restart. -/
+theorem view_below_close {w : Win} (hw : WinOk w) {s : Node} (h : Reach w s)
+    (hshort : s.chain.length ≤ w.close) (x : Nat) :
+    x ∉ s.view.set ∧ (x ∈ s.view.gap ↔ ∃ n, 1 ≤ n ∧ n < s.chain.length ∧ x ∈ idsAt s.chain n) := by
+  have hv := view_eq_window_reach hw h
+  constructor
+  · rw [hv.1 x]
+    rintro ⟨n, h1, h2, h3, _⟩; omega
+  · rw [hv.2 x]
+    constructor
+    · rintro ⟨n, h1, h2, _, hx⟩; exact ⟨n, h1, h2, hx⟩
+    · rintro ⟨n, h1, h2, hx⟩; exact ⟨n, h1, h2, by omega, hx⟩
+
+/-- While the window still reaches down to block 1 (`candidate − w_far` saturates: the next block's
+number is at most `w_far`, in particular whenever `w_far ≥ tip + 1`) the committable set is the ids
+of ALL non-genesis blocks up to `candidate − w_close`: nothing has expired yet. -/
+theorem view_far_reaches_genesis {w : Win} (hw : WinOk w) {s : Node} (h : Reach w s)
+    (hfar : s.chain.length ≤ w.far) (x : Nat) :
+    x ∈ s.view.set ↔ ∃ n, 1 ≤ n ∧ n + w.close ≤ s.chain.length ∧ x ∈ idsAt s.chain n := by
+  rw [(view_eq_window_reach hw h).1 x]
+  have := hw.close_pos
+  constructor
+  · rintro ⟨n, h1, _, h3, _, hx⟩; exact ⟨n, h1, h3, hx⟩
+  · rintro ⟨n, h1, h3, hx⟩; exact ⟨n, h1, by omega, h3, by omega, hx⟩
+
+/-- … hence an extension that keeps the next block's number within `w_far` reports no dropped id
+(`detached_proposal_id` is empty): expiry starts exactly when the chain outgrows the window. -/
+theorem no_expiry_while_far_reaches_genesis {w : Win} (hw : WinOk w) {s : Node} (h : Reach w s)
+    (ext : List Ids) (hfar : s.chain.length + ext.length ≤ w.far) (x : Nat) :
+    x ∉ (switch w s (s.chain.length - 1) ext).2 := by
+  have hpos := (reach_inv hw h).chain.pos
+  have hc : s.chain.length - 1 < s.chain.length := by omega
+  rw [removed_eq_left_window hw h hc]
+  rintro ⟨⟨n, h1, h2, h3, h4, hx⟩, hnot⟩
+  apply hnot
+  have hce : (switch w s (s.chain.length - 1) ext).1.chain = s.chain ++ ext := by
+    rw [switch_chain]
+    have : s.chain.length - 1 + 1 = s.chain.length := by omega
+    rw [this, List.take_length]
+  rw [hce]
+  refine ⟨n, h1, by simp; omega, by simp; omega, by simp; omega, ?_⟩
+  simp only [idsAt, List.getD_eq_getElem?_getD] at hx ⊢
+  rw [List.getElem?_append_left h2]
+  exact hx
+
+/-- The table the chain service keeps holds only rows of the current main chain inside the window
+(plus possibly the genesis row, which start-up inserts while `tip ≤ w_far`): a row's number `n` is
+below the next block's number and within `w_far` of it. Together with `reach_inv` (rows are accurate,
+the window is covered) the table is exactly the window's rows in every reachable state. -/
+theorem table_rows_in_window {w : Win} (hw : WinOk w) {s : Node} (h : Reach w s) {n : Nat} {ids : Ids}
+    (hm : (n, ids) ∈ s.table) :
+    n < s.chain.length ∧ (n = 0 ∨ s.chain.length ≤ n + w.far) ∧ idsAt s.chain n = ids := by
+  have hacc := (reach_inv hw h).acc n ids hm
+  have hlt : n < s.chain.length := by
+    rcases Nat.lt_or_ge n s.chain.length with h' | h'
+    · exact h'
+    · rw [List.getElem?_eq_none h'] at hacc; cases hacc
+  refine ⟨hlt, ?_, idsAt_of_getElem? hacc⟩
+  -- the table of every reachable state is the result of `finalize` at its tip
+  have key : ∀ (t : Table) (o : View) (L : Nat), 0 < L → (n, ids) ∈ (finalize w t o (L - 1)).1 →
+      n = 0 ∨ L ≤ n + w.far := by
+    intro t o L hL hmem
+    have := (mem_finalize_table.mp hmem).2
+    simp only at this
+    omega
+  cases h with
+  | boot => exact key _ {} ([[]] : List Ids).length (by decide) hm
+  | switch common branch hs hc =>
+    rename_i s0
+    have hlen := newChain_length hc branch
+    have hL : (switch w s0 common branch).1.chain.length = common + 1 + branch.length := by
+      rw [switch_chain]; exact hlen
+    rw [hL]
+    have := key (updateTable w s0.table (s0.chain.length - 1) common branch
+      (s0.chain.take (common + 1) ++ branch)) s0.view (common + 1 + branch.length) (by omega)
+    apply this
+    have e : common + 1 + branch.length - 1 = common + branch.length := by omega
+    rw [e]
+    exact hm
+  | restart hs =>
+    rename_i s0
+    have hpos := (reach_inv hw hs).chain.pos
+    exact key _ {} _ hpos hm
+
+/-- Block numbers occur at most once in the table of every reachable state (the association list
+behaves like the `BTreeMap`). -/
+theorem table_keys_nodup {w : Win} {s : Node} (h : Reach w s) : (Table.keys s.table).Nodup := by
+  induction h with
+  | boot => exact nodup_init
+  | switch common branch _ _ ih => exact nodup_switch ih
+  | restart _ _ => exact nodup_init
+
+/-- **Memory bound.** The table never holds more than `w_far + 1` rows, whatever the history
+(`finalize`'s `split_off`, the removal of detached rows and the reload range together keep it inside
+the window: `table_rows_in_window`, `table_keys_nodup`). -/
+theorem table_size_le {w : Win} (hw : WinOk w) {s : Node} (h : Reach w s) :
+    s.table.length ≤ w.far + 1 := by
+  have hk := table_keys_nodup h
+  have hlen : s.table.length = (Table.keys s.table).length := by simp [Table.keys]
+  rw [hlen]
+  have h1 := length_le_filter_ne_succ 0 hk
+  have h2 : ((Table.keys s.table).filter (fun x => x != 0)).length ≤ w.far := by
+    apply length_le_of_nodup_interval w.far (s.chain.length - w.far)
+    · exact List.Nodup.sublist List.filter_sublist hk
+    · intro x hx
+      rw [List.mem_filter] at hx
+      have hne : x ≠ 0 := by simpa using hx.2
+      simp only [Table.keys, List.mem_map] at hx
+      obtain ⟨⟨⟨n, ids⟩, hm, rfl⟩, _⟩ := hx
+      have := table_rows_in_window hw h hm
+      simp only at hne ⊢
+      omega
+  omega
+
+example : exNode.table.length = 2 ∧ Table.keys exNode.table = [3, 2] := by decide
+
+/-! ## the tx-pool as a consumer: the whole-pool stage transition, for every view delta
+
+`Window.poolReorg` is `update_tx_pool_for_reorg` (remove committed, `remove_by_detached_proposal`,
+the mine-mode moves, `readd_detached_tx`), `Window.pswitch` is a main-chain change with the pool
+notified, `Window.psubmit` a submission (`Model/WindowPool.lean`). `PReach` = node and pool together
+through any sequence of submissions and main-chain changes (reorganisations of any depth, to longer
+or shorter branches, with any committed transactions). -/
+
+inductive PReach (w : Win) : PNode → Prop
+  | boot : PReach w (pboot w)
+  | submit {s : PNode} (x : Nat) : PReach w s → PReach w (psubmit s x)
+  | switch {s : PNode} (common : Nat) (branch bcommits : List Ids) :
+      PReach w s → common < s.node.chain.length → PReach w (pswitch w s common branch bcommits)
+
+/-- what the property asks of a pooled entry: Proposed exactly when its id is committable in the
+next block, and never Pending while its id is in the gap part. (A Gap entry outside the window is
+possible in the code as written — `pool_stale_gap_reachable` — and is C12's finding, not C20's.) -/
+def StageOk (w : Win) (chain : List Ids) (e : Nat × Stage) : Prop :=
+  (e.2 = .proposed ↔ InSet w chain e.1) ∧ (e.2 = .pending → ¬ InGap w chain e.1)
+
+theorem preach_node {w : Win} {s : PNode} (h : PReach w s) : Reach w s.node := by
+  induction h with
+  | boot => exact .boot
+  | submit x _ ih => exact ih
+  | switch common branch bcommits _ hc ih => exact .switch common branch ih hc
+
+/-- A submission is filed exactly by the on-chain window: Proposed iff committable, Gap iff only in
+the gap part, Pending iff in neither (`_submit_entry` ∘ `get_tx_status`). -/
+theorem submit_stage_exact {w : Win} (hw : WinOk w) {s : Node} (h : Reach w s) (x : Nat) :
+    ((txStatus s.view x).stage = .proposed ↔ InSet w s.chain x) ∧
+    ((txStatus s.view x).stage = .gap ↔ InGap w s.chain x ∧ ¬ InSet w s.chain x) ∧
+    ((txStatus s.view x).stage = .pending ↔ ¬ InSet w s.chain x ∧ ¬ InGap w s.chain x) := by
+  have hv := (reach_inv hw h).view
+  refine ⟨?_, ?_, ?_⟩
+  · rw [submit_stage_proposed_iff, hv.1 x]
+  · rw [submit_stage_gap_iff, hv.1 x, hv.2 x]
+  · rw [submit_stage_pending_iff, hv.1 x, hv.2 x]
+
+/-- **The per-entry stage transition function, for every view delta** (any reachable state, any
+main-chain change): the stage after `_update_tx_pool_for_reorg` as a function of the stage before and
+of the id's membership in the old and new on-chain windows. Proposed iff committable on the new
+chain; Gap iff not committable and (in the new gap part, or it was Gap and not committable before);
+Pending iff in neither part of the new window and not a Gap entry that stays. -/
+theorem stage_after_exact {w : Win} (hw : WinOk w) {s : Node} (h : Reach w s)
+    {common : Nat} (hcommon : common < s.chain.length) (branch : List Ids) (st : Stage) (x : Nat)
+    (hst : st = .proposed → InSet w s.chain x) :
+    let s' := (switch w s common branch).1
+    let st' := stageAfter (switch w s common branch).2 s'.view st x
+    (st' = .proposed ↔ InSet w s'.chain x) ∧
+    (st' = .gap ↔ ¬ InSet w s'.chain x ∧ (InGap w s'.chain x ∨ (st = .gap ∧ ¬ InSet w s.chain x))) ∧
+    (st' = .pending ↔ ¬ InSet w s'.chain x ∧ ¬ InGap w s'.chain x ∧ (st = .gap → InSet w s.chain x)) := by
+  intro s' st'
+  have hold := (reach_inv hw h).view.1
+  have hnew := (reach_inv hw (Reach.switch common branch h hcommon)).view
+  have hrem : x ∈ (switch w s common branch).2 ↔ x ∈ s.view.set ∧ x ∉ s'.view.set := by
+    simp only [s', CkbVerif.Window.switch]
+    exact finalize_removed
+  have hst' : st = .proposed → x ∈ s.view.set := fun e => (hold x).mpr (hst e)
+  refine ⟨?_, ?_, ?_⟩
+  · rw [← hnew.1 x]; exact stageAfter_proposed_iff hrem hst'
+  · rw [← hnew.1 x, ← hnew.2 x, ← hold x]; exact stageAfter_gap_iff hrem hst'
+  · rw [← hnew.1 x, ← hnew.2 x, ← hold x]; exact stageAfter_pending_iff hrem hst'
+
+/-- **Pool invariant.** Through every sequence of submissions and main-chain changes, every pooled
+entry is staged Proposed exactly when its id is committable in the next block, and is never left
+Pending while its id is in the gap part. -/
+theorem pool_ok_reach {w : Win} (hw : WinOk w) {s : PNode} (h : PReach w s) :
+    ∀ e ∈ s.pool, StageOk w s.node.chain e := by
+  induction h with
+  | boot => intro e he; cases he
+  | submit x hs ih =>
+    rename_i s0
+    intro e he
+    rcases mem_poolSubmit.mp he with h1 | ⟨_, h1⟩
+    · exact ih e h1
+    · subst h1
+      have := submit_stage_exact hw (preach_node hs) x
+      exact ⟨this.1, fun hp => (this.2.2.mp hp).2⟩
+  | switch common branch bcommits hs hc ih =>
+    rename_i s0
+    intro e he
+    have hr := preach_node hs
+    have hr' : Reach w (switch w s0.node common branch).1 := .switch common branch hr hc
+    rcases mem_poolReorg he with ⟨st, hm, _, hst⟩ | ⟨_, _, hst⟩
+    · have hok := ih (e.1, st) hm
+      have := stage_after_exact hw hr hc branch st e.1 (fun hp => hok.1.mp hp)
+      simp only at this
+      show (e.2 = .proposed ↔ InSet w (switch w s0.node common branch).1.chain e.1) ∧
+        (e.2 = .pending → ¬ InGap w (switch w s0.node common branch).1.chain e.1)
+      rw [hst]
+      exact ⟨this.1, fun hp => (this.2.2.mp hp).2.1⟩
+    · have := submit_stage_exact hw hr' e.1
+      show (e.2 = .proposed ↔ InSet w (switch w s0.node common branch).1.chain e.1) ∧
+        (e.2 = .pending → ¬ InGap w (switch w s0.node common branch).1.chain e.1)
+      rw [hst]
+      exact ⟨this.1, fun hp => (this.2.2.mp hp).2⟩
+
+/-- … so what the block template may package (pooled entries staged Proposed) is exactly the pooled
+ids of the on-chain committable window, in every reachable state of node and pool. -/
+theorem template_eq_pooled_window {w : Win} (hw : WinOk w) {s : PNode} (h : PReach w s) (x : Nat) :
+    x ∈ s.pool.proposedIds ↔ s.pool.has x = true ∧ InSet w s.node.chain x := by
+  have hok := pool_ok_reach hw h
+  simp only [PoolSt.proposedIds, List.mem_map, List.mem_filter, beq_iff_eq]
+  constructor
+  · rintro ⟨⟨y, st⟩, ⟨hm, hp⟩, rfl⟩
+    exact ⟨PoolSt.has_iff.mpr ⟨st, hm⟩, (hok _ hm).1.mp hp⟩
+  · rintro ⟨hh, hin⟩
+    obtain ⟨st, hm⟩ := PoolSt.has_iff.mp hh
+    exact ⟨(x, st), ⟨hm, (hok _ hm).1.mpr hin⟩, rfl⟩
+
+/-- Pooled ids stay distinct (a duplicate submission and a re-admission of a pooled id are refused). -/
+theorem pool_ids_nodup {w : Win} {s : PNode} (h : PReach w s) : s.pool.ids.Nodup := by
+  induction h with
+  | boot => exact List.nodup_nil
+  | submit x _ ih => exact nodup_poolSubmit ih
+  | switch common branch bcommits _ _ ih => exact nodup_poolReorg ih
+
+/-- Which ids are pooled after a main-chain change: the old ones not committed by the attached
+blocks, and the transactions of detached blocks that the attached blocks do not commit again. -/
+theorem pool_ids_after_switch {w : Win} (s : PNode) (common : Nat) (branch bcommits : List Ids) (x : Nat) :
+    (pswitch w s common branch bcommits).pool.has x = true ↔
+      x ∉ bcommits.flatten ∧ (s.pool.has x = true ∨ x ∈ (s.commits.drop (common + 1)).flatten) := by
+  simp only [pswitch]
+  exact has_poolReorg
+
+/-- The code as written can leave a Gap entry whose id is in NO part of the window (window (2,4):
+id 7 proposed in block 3 of branch A, submitted → Gap; a reorganisation from block 2 to a branch that
+never proposes 7): `StageOk` still holds (it is not Proposed and not Pending-in-gap), the entry is
+simply stale. This is exactly the second alternative of `stage_after_exact`'s Gap clause. -/
+theorem pool_stale_gap_reachable :
+    ∃ s, PReach ⟨2, 4⟩ s ∧ (7, Stage.gap) ∈ s.pool ∧ ¬ InSet ⟨2, 4⟩ s.node.chain 7 ∧
+      ¬ InGap ⟨2, 4⟩ s.node.chain 7 := by
+  refine ⟨pswitch ⟨2, 4⟩ (psubmit (pswitch ⟨2, 4⟩ (pboot ⟨2, 4⟩) 0 [[1], [2], [7]] [[], [], []]) 7)
+    2 [[3], [4]] [[], []], ?_, by decide, ?_, ?_⟩
+  · exact .switch 2 _ _ (.submit 7 (.switch 0 _ _ .boot (by decide))) (by decide)
+  · rintro ⟨n, h1, h2, _, _, hx⟩
+    have : n < 5 := h2
+    have h7 : ∀ m, m < 5 → 7 ∉ idsAt [[], [1], [2], [3], [4]] m := by decide
+    exact h7 n this hx
+  · rintro ⟨n, h1, h2, _, hx⟩
+    have : n < 5 := h2
+    have h7 : ∀ m, m < 5 → 7 ∉ idsAt [[], [1], [2], [3], [4]] m := by decide
+    exact h7 n this hx
+
+/-! non-vacuity of the pool statements: a reachable node + pool with all three stages, a commit, a
+re-admission after a reorganisation, and an entry moved back from Proposed -/
+def exPool : PNode :=
+  let w : Win := ⟨2, 4⟩
+  let s1 := pswitch w (pboot w) 0 [[1], [2], [3]] [[], [], []]
+  let s2 := psubmit (psubmit (psubmit (psubmit s1 1) 2) 3) 9
+  -- block 4 commits 1 (proposed in block 1: distance 3) and proposes 9
+  pswitch w s2 3 [[9]] [[1]]
+
+theorem exPool_reach : PReach ⟨2, 4⟩ exPool :=
+  .switch 3 _ _ (.submit 9 (.submit 3 (.submit 2 (.submit 1 (.switch 0 _ _ .boot (by decide)))))) (by decide)
+
+example : exPool.pool = [(2, .proposed), (3, .proposed), (9, .gap)] := by decide
+/-- a reorganisation from block 2 to a branch that proposes nothing: 1 is re-admitted (Pending), 2 stays
+committable (block 2, distance 3), 3 goes back to Pending, 9 stays Gap (stale) -/
+example : (pswitch ⟨2, 4⟩ exPool 2 [[], [], []] [[], [], []]).pool =
+    [(2, .proposed), (3, .pending), (9, .gap), (1, .pending)] := by decide
+example : (pswitch ⟨2, 4⟩ exPool 2 [[], [], []] [[], [], []]).pool.proposedIds = [2] := by decide
+example : ∀ x, x ∉ (switch defaultWin (init defaultWin [[], [1], [2]]) 2 [[3], [4]]).2 := by decide
+
+/-! ## blocks with embedded uncles: the three gathering loops
+
+`update_proposal_table` / `reload_proposal_table` take `BlockView::union_proposal_ids` (own proposals
+chained with every uncle's), `init_proposal_table` and `TwoPhaseCommitVerifier` each read the two
+store columns (`get_block_proposal_txs_ids`, `get_block_uncles`) and `extend` a set
+(`Model/WindowBlocks.lean`: `Blk.unionIds`, `Blk.gatherIds`, `initB`, `switchB`, `verifierIdsB`). -/
+
+/-- The two ways of gathering a block's proposal ids give the same set: an id proposed ONLY in an
+embedded uncle counts in all three places, an id proposed by the block and by its uncle counts once. -/
+theorem gather_eq_union (b : Blk) (x : Nat) : x ∈ b.gatherIds ↔ x ∈ b.unionIds := by
+  rw [Blk.mem_gatherIds, Blk.mem_unionIds]
+
+/-- Start-up on any stored chain of blocks (rows gathered from the two store columns) yields exactly
+the window over the blocks' `union_proposal_ids`. -/
+theorem initB_view_eq_window {w : Win} (hw : WinOk w) (bc : List Blk)
+    (hc : ChainOk (bc.map Blk.unionIds)) :
+    (∀ x, x ∈ (initB w bc).view.set ↔ InSet w (bc.map Blk.unionIds) x) ∧
+    (∀ x, x ∈ (initB w bc).view.gap ↔ InGap w (bc.map Blk.unionIds) x) := by
+  have hs := sameIds_gather_union bc
+  have hv := (Inv.init hw (ChainOk.congr hs hc)).view
+  exact ⟨fun x => by rw [← InSet.congr hs]; exact hv.1 x, fun x => by rw [← InGap.congr hs]; exact hv.2 x⟩
+
+/-- … so a restart is invisible also at block level: the view rebuilt from the stored blocks equals the
+view maintained incrementally from the delivered blocks' `union_proposal_ids`, in every reachable
+state. -/
+theorem restartB_eq_incremental {w : Win} (hw : WinOk w) {s : Node} (h : Reach w s) (bc : List Blk)
+    (hs : s.chain = bc.map Blk.unionIds) :
+    (∀ x, x ∈ (initB w bc).view.set ↔ x ∈ s.view.set) ∧
+    (∀ x, x ∈ (initB w bc).view.gap ↔ x ∈ s.view.gap) := by
+  have hv := view_eq_window_reach hw h
+  have hc : ChainOk (bc.map Blk.unionIds) := hs ▸ (reach_inv hw h).chain
+  have hi := initB_view_eq_window hw bc hc
+  rw [hs] at hv
+  exact ⟨fun x => by rw [hi.1 x, hv.1 x], fun x => by rw [hi.2 x, hv.2 x]⟩
+
+/-- The commit verifier's own gathering over the stored blocks collects exactly the committable window
+of the `union_proposal_ids` chain — hence exactly the view's `set` (`restartB_eq_incremental`,
+`view_eq_window_reach`). -/
+theorem verifierB_eq_window {w : Win} (hw : WinOk w) (bc : List Blk) (x : Nat) :
+    x ∈ verifierIdsB w bc bc.length ↔ InSet w (bc.map Blk.unionIds) x := by
+  have hl : bc.length = (bc.map Blk.gatherIds).length := by simp
+  unfold verifierIdsB
+  rw [hl, mem_verifierIds hw, InSet.congr (sameIds_gather_union bc)]
+
+/-- Counted once across overlapping windows: an id that is still proposed at a committable distance
+on the new chain (by another block, by an uncle, by a re-proposal) is NOT reported as dropped, however
+many of its other proposals left the window. -/
+theorem removed_not_while_still_proposed {w : Win} (hw : WinOk w) {s : Node} (h : Reach w s)
+    {common : Nat} (hcommon : common < s.chain.length) (branch : List Ids) (x : Nat)
+    (hstill : InSet w (switch w s common branch).1.chain x) : x ∉ (switch w s common branch).2 := by
+  rw [removed_eq_left_window hw h hcommon]
+  exact fun hh => hh.2 hstill
+
+/-! non-vacuity: 7 is proposed only in an uncle of block 1, 8 by block 2 and by its uncle -/
+def exBlocks : List Blk := [{}, { own := [1], uncles := [[7]] }, { own := [8], uncles := [[8], [9]] }, {}]
+example : (initB ⟨2, 4⟩ exBlocks).view.set = [8, 8, 9, 1, 7] := by decide
+example : (switchB ⟨2, 4⟩ (init ⟨2, 4⟩ [[]]) 0 exBlocks.tail).1.view.set = [8, 8, 9, 1, 7] := by decide
+example : verifierIdsB ⟨2, 4⟩ exBlocks 4 = [8, 8, 9, 1, 7] := by decide
+example : ChainOk (exBlocks.map Blk.unionIds) := ⟨by decide, by decide⟩
 
 /-- Why `ChainOk.genesis` is needed: with a proposal in the genesis block the start-up view offers
 it as committable while the verifier (which stops at genesis) would reject it. -/
